@@ -4,7 +4,6 @@ CONSTANTS
   K = 10
   Rounds = {0, 1, 2, 3, 4, 5, 6, 7, 8, 9, 10, 11, 12, 13}
   Vals = {0, 1, 2}
-  MaxPos = 1000
   MutInCursor = TRUE
   Depth = 60
   CoverOneIn = 1
